@@ -119,15 +119,15 @@ macro "decide_if" : tactic =>
 macro "encoding_to_selfies_proof " labels:term:max rows:term:max vocab:term:max s:term:max : tactic =>
   `(tactic| (
     rcases ofStr_cases $s with ⟨hs, he⟩ | ⟨hs, he⟩ | ⟨h1, h2, he⟩
-    · subst hs
-      rw [he]
-      simp only [encodingArg, encodingToSelfies]
+    · rw [he, show encodingArg .label $labels $rows = .inl $labels from rfl,
+        show encodingToSelfies $labels $rows $vocab .label = labelToSelfies $labels $vocab from rfl]
+      subst hs
       decide_if
       decide_if
       exact label_shape $vocab _ (by look_proof $vocab) $labels
-    · subst hs
-      rw [he]
-      simp only [encodingArg, encodingToSelfies]
+    · rw [he, show encodingArg .oneHot $labels $rows = .inr $rows from rfl,
+        show encodingToSelfies $labels $rows $vocab .oneHot = oneHotToSelfies $rows $vocab from rfl]
+      subst hs
       decide_if
       decide_if
       exact encoding_shape $vocab _ (by intros; rfl) _ (by look_proof $vocab) $rows
